@@ -28,6 +28,16 @@ Triage notes (what was changed after the first runs, and why):
     `one_column`): wider / zero-width ones are rejected by SolidCanvas by design and are outside the quantifier.
   * failure details carry identifier-named fields for the known-finding matcher: mode, root, classes, exc, at, step,
     msg, pack, rows_calc (next to expr, enc, size, focus, clause, why, sizing, canvas, cursor).
+  * thorough tier (triage tC01): no oracle change was needed (one small family added, see below).  Every failure that only the thorough pool
+    reaches (children `graph`, `bytes`, `editclip`; Overlay / Pile-with-a-given-box-item as inner trees of the depth-3
+    sample) was replayed natively and is a real violation on a well-formed tree; each is a known finding: KF3 (a Filler
+    that leaves 0 rows, now also for BarGraph bodies), KF6 (SO/SI bytes: an Overlay that trusts Text.pack raises), KF1
+    (LineBox(BigText) drawn through Scrollable), KF4 / KF5 (cursor at x = -1 from a clipped Edit in a 0-column child),
+    KF10 (fixed Columns with a weighted FIXED+BOX column), KF11 (fixed GridFlow takes the box path for a Pile cell that
+    has a given-height box item).  To see *all* failure kinds of a run, not the first 20 per check, replace
+    `Tally.failures` by a property returning every entry of `by_sig` (the depth-3 check has > 200 kinds in this tier).
+    Family `Nested-extra` (all tiers) enumerates the shapes of KF10 .. KF13, which only the depth-3 sample reached
+    (KF12 / KF13 only with samples other than seed 0's).
 
 Strengthening notes (after seeded changes C01-a1 / C01-a2 went undetected; bounds added, oracle unchanged):
   * GraphVScale: labels that wrap onto several rows at the narrow widths of the scope (multi-word, multi-line, wide,
@@ -364,11 +374,16 @@ def own_segment_width(cs, bs, mode):
     return len(bs)
 
 
+def _short(e):
+    """The exception text on one line without the (long, nested) widget repr of WidgetError ("Widget <...> rendered ...")
+    and -- triage tC01 -- of ListBoxError ("Focus Widget <...> at position ..."), whose telling part used to be cut off."""
+    return re.sub(r"Widget <(\w+).*> (rendered|at position)", r"Widget <\1 ...> \2", " ".join(str(e).split()))
+
+
 def _exc(e):
     frames = [f for f in traceback.extract_tb(e.__traceback__) if "urwid" in f.filename]
     where = " <- ".join(f"{os.path.basename(f.filename)}:{f.lineno} {f.name}" for f in reversed(frames[-3:]))
-    msg = re.sub(r"Widget <(\w+).*> rendered", r"Widget <\1 ...> rendered", " ".join(str(e).split()))  # drop the (long, nested) widget repr
-    return f"{type(e).__name__}: {msg[:160]} [at {where}]"
+    return f"{type(e).__name__}: {_short(e)[:160]} [at {where}]"
 
 
 def _exc_fields(e, step):
@@ -377,7 +392,7 @@ def _exc_fields(e, step):
     call that raised ('sizing' / 'rows' / 'pack' / 'render' / 'content')."""
     frames = [f for f in traceback.extract_tb(e.__traceback__) if "urwid" in f.filename]
     at = f"{os.path.basename(frames[-1].filename)}:{frames[-1].name}" if frames else ""
-    return {"exc": type(e).__name__, "at": at, "step": step.split("(", 1)[0], "msg": " ".join(str(e).split())[:120]}
+    return {"exc": type(e).__name__, "at": at, "step": step.split("(", 1)[0], "msg": _short(e)[:160]}
 
 
 def _mode_of(size):
@@ -910,6 +925,26 @@ def containers(children, flow_children, box_children, lvl):
         fam["GraphScale"] = [f"Columns([({w}, GraphVScale({lab}, 9)), bar_graph([[1], [5], [9]], 9, [4, 2])]{o})" for lab in gl for w, o in ((1, ""), (2, ", dividechars=1"), (3, ""))]
         fam["GraphScale"] += [f"BoxAdapter(GraphVScale({lab}, {top}), {h})" for lab in gl for top, h in ((9, 5), (5, 7), (9, 6) if lvl == 2 else (1, 2))]
         fam["GraphScale"] += [f"Pile([({h}, GraphVScale({lab}, 9)), Text('ab cd')])" for lab in gl for h in (2, 5)] + [f"LineBox(GraphVScale({lab}, 5))" for lab in gl]
+    # Triage (thorough tier, tC01): three shapes that only the depth-3 *sample* reached (and only behind the 20 failures the
+    # depth-3 check lists), made part of the enumerated bound in every tier so that what they show (known findings
+    # C01-KF10 .. C01-KF13) is reproduced by every run instead of depending on the sample: a widget that reports
+    # FIXED and BOX but not FLOW (an Overlay with 'pack' width) in a weighted column of a fixed-size Columns / LineBox; a
+    # flow cell of a GridFlow that is a Pile with a given-height box item (such a Pile reports BOX, FLOW and FIXED); a
+    # ListBox whose focus widget clips its child (Padding 'clip', a too-wide Overlay) so that the child's cursor is cut off.
+    if lvl:
+        ovp = ("'center', 'pack', 'middle', 'pack'", "'left', 'pack', 'top', 2", "('relative', 30), 'pack', 'bottom', ('relative', 50)")
+        fam["Nested-extra"] = [f"Columns([Overlay({t}, SolidFill('.'), {o})])" for t in ("Text('ab')", "Edit('c', 'ab')") for o in ovp]
+        fam["Nested-extra"] += [f"Columns([Overlay(Text('ab'), SolidFill('.'), {ovp[0]}), {b}], dividechars=1)" for b in ("('pack', Text('ab cd'))", "(2, Text('ab cd'))", "Text('ab cd')")]
+        fam["Nested-extra"] += [f"LineBox(Overlay(Text('a中b', wrap='any'), SolidFill('.'), {o}))" for o in ovp[:2]]
+        gp = ("Pile([Text('a'), (2, SolidFill('x'))])", "Pile([Edit('c', 'ab'), (2, SolidFill('x'))])", "Pile([('pack', Text('ab cd')), (2, SolidFill('x'))])")
+        fam["Nested-extra"] += [f"GridFlow([{a}], 3, 1, 1, 'left')" for a in gp] + [f"GridFlow([{gp[0]}, {b}], 3, 1, 0, 'center')" for b in (*gp, "Text('ab cd')")]
+        clipped = ("Padding(CheckBox('ab', True), 'right', 'clip')", "Padding(CheckBox('中', True), 'right', 'clip', min_width=2)", "Padding(Button('ok'), 'left', 'clip', left=2)", "Overlay(Edit('c', 'ab'), SolidFill('.'), 'center', 3, ('relative', 30), 'pack')")
+        fam["Nested-extra"] += [f"list_box([{c}])" for c in clipped] + [f"list_box([Text('ab cd'), {c}], focus=1)" for c in clipped]
+        # ... a ListBox whose focus widget is a Columns too narrow for its focus column (the column is hidden; repaired by the
+        # fix "Columns.get_cursor_coords reports no cursor when the focus column is hidden", found by thorough seed 6 / quick seed 29)
+        fam["Nested-extra"] += ["list_box([Columns([(2, Edit('c', 'ab'))])])", "list_box([Text('ab cd'), Columns([Edit('c', 'ab'), Edit('c', 'ab')], min_width=3)], focus=1)", "list_box([Columns([(2, Edit('c', 'ab')), ('pack', Text('ab cd'))], min_width=3), Text('ab cd')])"]
+        # ... and (KF13) an Overlay with 'pack' width over a fixed widget that packs to 0 rows (a Pile of zero-weight items only)
+        fam["Nested-extra"] += [f"Overlay(Pile([('weight', 0, Text('ab cd'))]), SolidFill('.'), {o})" for o in ovp[:2]]
     F = list(flow_children)
     cells = [[]] + [[a] for a in F] + [[a, b] for a in F for b in F[: 2 if lvl == 2 else 1]] + [[F[0], a, F[0], a, F[0]] for a in F[:4]]
     galign = ("left", "center", "right", ("relative", 30))
@@ -983,6 +1018,7 @@ def depth3_sample(enc, mode, tier, seed, count):
     inner = {}
     inner.update(decorations(C, 1 if thorough else 0))
     inner.update(containers(C, F, B, 1 if thorough else 0))
+    inner.pop("Nested-extra", None)  # those trees are depth 3 already (and the sample stays what it was before the family existed)
     inner_all = sorted(e for v in inner.values() for e in v)
     out = []
     seen = set()
